@@ -10,8 +10,8 @@ PROPS_MODULES = ["C12.Props"]
 RUN_MODULE = "C12.Run"
 RUN_FN = "run_case"
 HARNESS_BIN = "c12"
-HARNESS_BINS = ["c12"]
-SHRINK_KEEP = ("ohash", "oscore")
+HARNESS_BINS = ["c12", "c16bb"]
+SHRINK_KEEP = ("ohash", "oscore", "bb")
 CLAIMED = True
 RULE = ("cases: histories over 2 clusters, 7 addresses, 3 backend ids, 3 sticky ids of add / re-add (same "
         "(address,id): config update) / remove-by-address, health-check results with thresholds 1-3 and health "
@@ -317,6 +317,38 @@ def corpus_cases():
     return out
 
 
+def extra_stage(tier, rng, work):
+    """thin black-box tier (the worker of C16's c16bb, through the `bb` op of the driver): after real sessions over
+    HTTP/1, TLS, HTTP/2, WebSocket and TCP the backend snapshot hook must show what the model says the session code
+    does to a backend: a refused connect is recorded (tries >= 1, failures >= 1), tries never exceed the maximum nor
+    decrease without a success, is_down <=> tries >= max, a served request resets the policy, a revived backend is
+    used again once its back-off window allows (thorough) and is then reset, and every backend's connection /
+    request counts are zero when traffic has ended"""
+    if tier == "thorough":
+        cfgs = [(rng.randrange(1, 10 ** 6), mx, 0, 40, 0, 0, "k", 1) for mx in (2, 5, 8)] + \
+               [(rng.randrange(1, 10 ** 6), 5, 0, 24, 0, 0, "k0_1_4_18_16_13", 1)]
+    else:
+        cfgs = [(rng.randrange(1, 10 ** 6), 5, 0, 10, 0, 0, "k0_1_4_18_16_13_8", 0)]
+    cases = [Case("bb%d" % i, [["bb"] + list(c)], {}) for i, c in enumerate(cfgs)]
+    outs, problems = vlib.run_harness(HARNESS_BIN, cases, os.path.join(work, "bb"), "release", timeout=1200, shards=len(cases))
+    viols, fails, done = [], list(problems), 0
+    for c in cases:
+        o = outs.get(c.id)
+        if o is None:
+            fails.append("black-box case %s produced no output" % c.id)
+            continue
+        if o["panic"] is not None:
+            viols.append((c, "panic", o["panic"]))
+        for (vc, vt) in o["viol"]:
+            viols.append((c, vc, vt))
+        if not any(n.startswith("bb:") or n.startswith("invalid-case") for n in o["notes"]):
+            done += 1
+        for n in o["notes"]:
+            if n.startswith("invalid-case"):
+                fails.append("black-box case %s: %s" % (c.id, n))
+    return dict(failures=fails, viols=viols, coverage=dict(blackbox_runs=len(cases), blackbox_completed=done))
+
+
 def nontrivial(case, o):
     cands = set()
     for op, ob in zip(case.ops, o["obs"]):
@@ -336,6 +368,7 @@ LEVEL_TEXT = ("Machine-checked proof (Coq 8.16) over an executable model of Back
               "own oracle evaluated on the implementation.")
 LEVEL_NOTE = ("Trusted: Coq kernel; extraction + ocaml/driver.ml for the correspondence only; hash values and HRW "
               "scores are data read from the real code; Random/PowerOfTwo draws compared by membership; the production "
-              "65537-slot table is not compared slot by slot; PeakEWMA metric not modelled; call sites in the session "
-              "code (who calls inc/dec/fail/succeed when) are outside this model (C16's black-box tier).")
+              "65537-slot table is not compared slot by slot; PeakEWMA metric not modelled; what the session code does to the "
+              "backend it was given (inc/dec/fail/succeed call sites) is checked black-box through a real worker and "
+              "the backend snapshot hook, not proved.")
 TECHNIQUE = "Rocq/Coq proof over an executable Gallina model + differential correspondence (extracted OCaml vs real crate)"
